@@ -247,6 +247,27 @@ def run_case(ck, desc):
     e = float(np.max(np.abs(lam - lam_own) / np.abs(lam_own)))
     if not ck.margin("mobility = documented sum", e, 1e-13):
         ck.violation("mobility-documented-sum", {"rel": e}, desc)
+    # the object keeps answering for the table it was BUILT from after the caller edits that table in
+    # place to prepare the next sensitivity case (dict of arrays and DataFrame alike)
+    for form in ("dict", "df"):
+        tbl = {k: np.array(v, dtype=float, copy=True) for k, v in cols.items()}
+        arg_b = tbl if form == "dict" else pd.DataFrame(tbl, copy=False)
+        with warnings.catch_warnings(), np.errstate(all="ignore"):
+            warnings.simplefilter("ignore")
+            obj_b = fp.FlowPropertiesTwoPhase.from_table(arg_b, df_kr, refd, phi, Sw, float(P[ki]))
+            c_before = np.array(fp.compressibility_combined_func(pe, Soe, phi, Sw, obj_b.pvt), dtype=float, copy=True)
+            l_before = np.array(fp.lambda_combined_func(pe, Soe, obj_b.pvt, obj_b.kr), dtype=float, copy=True)
+            for k_ in ("Bg", "Rs", "mu_o", "Bo"):
+                if form == "dict":
+                    arg_b[k_] *= 1.07
+                else:
+                    arg_b.loc[:, k_] *= 1.07
+                tbl[k_] *= 1.0  # (the arrays the DataFrame may have been built on)
+            c_after = np.asarray(fp.compressibility_combined_func(pe, Soe, phi, Sw, obj_b.pvt), dtype=float)
+            l_after = np.asarray(fp.lambda_combined_func(pe, Soe, obj_b.pvt, obj_b.kr), dtype=float)
+        if not (np.array_equal(c_before, c_after, equal_nan=True) and np.array_equal(l_before, l_after, equal_nan=True)):
+            ck.violation("object-independent-of-later-edits-of-the-callers-table", {"form": form, "max_rel_change_c": float(np.nanmax(np.abs(c_after / c_before - 1))), "max_rel_change_lambda": float(np.nanmax(np.abs(l_after / l_before - 1)))}, desc)
+        ck.count(f"objects_re-evaluated_after_caller_edited_table.{form}")
     # diffusivity = mobility / compressibility (stand-alone and tabulated)
     if not const_tab:
         al = np.asarray(fp.alpha_multiphase(pe, Soe, phi, Sw, pvt_lib, kr_lib), dtype=float)
